@@ -22,7 +22,12 @@ META = {
              "reader, affines with det>0, <0 and ~0, attribute sets, CSV "
              "label tables; non-trivial = mesh with >= 2 triangles, or a "
              "mutated input that passes the reader's length checks, or a "
-             "mirroring transform; distinct by the whole case."),
+             "mirroring transform; distinct by the whole case."
+             ' Also: vertex / triangle arrays in six memory layouts, GIfTI'
+             ' container variants (ASCII / Base64 / GZip, row / column maj'
+             'or, little / big endian), labels over the whole uint64 range'
+             '; reader_big: more than a million triangles with one out-of-'
+             'range index at the head / middle / tail / end.'),
     "trusted_base": ["vlib/refs/mesh_spec.py (struct-based, from the format "
                      "text)", "vlib/refs/vtk_grammar.py (from memory of "
                      "neuroglancer's vtk/parse.ts)", "nibabel GIFTI writer"],
